@@ -17,7 +17,7 @@
 #define FS_FD_MAX  1024
 #define MAXNODES 512
 #define SIM_OPEN_MAX 1000
-typedef struct { char *path; unsigned char *data; size_t len; int mode; int isdir; int live; int is_temp; } node_t;
+typedef struct { char *path; unsigned char *data; size_t len; int mode; int isdir; int live; int is_temp; int by_spawn; } node_t;
 static node_t nodes[MAXNODES];
 static int nnodes;
 static char cwd[PATH_MAX] = "/";
@@ -109,7 +109,7 @@ static int add_node(const char *path, const void *data, size_t len, int mode, in
     } else free(nodes[i].data);
     nodes[i].data = malloc(len + 1);
     if (len) memcpy(nodes[i].data, data, len);
-    nodes[i].len = len; nodes[i].mode = mode; nodes[i].isdir = isdir; nodes[i].live = 1; nodes[i].is_temp = 0;
+    nodes[i].len = len; nodes[i].mode = mode; nodes[i].isdir = isdir; nodes[i].live = 1; nodes[i].is_temp = 0; nodes[i].by_spawn = 0;
     return i;
 }
 int simfs_add_file(const char *path, const void *data, size_t len, int mode) { return add_node(path, data, len, mode, 0); }
@@ -121,6 +121,8 @@ const char *simfs_cwd(void) { return cwd; }
 int simfs_open_fds(void) { int n = 0; for (int i = 0; i < FS_FD_MAX - FS_FD_BASE; i++) n += fsfd[i].used; return n; }
 int simfs_open_dirs(void) { return open_dirs; }
 int simfs_live_temp_files(void) { int n = 0; for (int i = 0; i < nnodes; i++) if (nodes[i].live && nodes[i].is_temp) n++; return n; }
+int simfs_live_spawn_files(void) { int n = 0; for (int i = 0; i < nnodes; i++) if (nodes[i].live && nodes[i].by_spawn) n++; return n; }
+const char *simfs_a_spawn_file(void) { for (int i = nnodes - 1; i >= 0; i--) if (nodes[i].live && nodes[i].by_spawn) return nodes[i].path; return ""; }
 int simfs_fd_mode(int fd) { return (fd >= FS_FD_BASE && fd < FS_FD_MAX && fsfd[fd - FS_FD_BASE].used) ? nodes[fsfd[fd - FS_FD_BASE].node].mode : -1; }
 
 /* ---- libc entry points ---- */
@@ -315,6 +317,9 @@ int sim_mkstemp(char *tmpl)
         errno = F_OUT(f) == FO_EMFILE ? EMFILE : EACCES;
         return -1;
     }
+    /* out of descriptors: like the real call, fail before anything is created (a file left behind by a failing mkstemp would be counted
+       against the caller at the end of the cycle) */
+    { int any = 0; for (int i = 0; i < FS_FD_MAX - FS_FD_BASE; i++) if (!fsfd[i].used) { any = 1; break; } if (!any) { probe_hit("mkstemp_out_of_descriptors"); errno = EMFILE; return -1; } }
     for (;;) {
         static const char al[] = "abcdefghijklmnopqrstuvwxyzABCDEFGHIJKLMNOPQRSTUVWXYZ0123456789";
         int used = 0;
@@ -429,7 +434,7 @@ int sim_system(const char *cmd)
     if (out && *out) {
         int i = find_node(out);
         if (i >= 0) { free(nodes[i].data); nodes[i].data = malloc(rlen + 1); if (rlen) memcpy(nodes[i].data, result, rlen); nodes[i].len = rlen; }
-        else simfs_add_file(out, result ? result : "", rlen, 0644 & ~(int)cur_umask);
+        else { simfs_add_file(out, result ? result : "", rlen, 0644 & ~(int)cur_umask); i = find_node(out); if (i >= 0) nodes[i].by_spawn = 1; }      /* a file the command line's redirection brought into being */
     }
     free(result);
     return rc;
